@@ -249,34 +249,45 @@ def _meta_equal(a: bytes, b: bytes) -> bool:
 
 
 def classify_disk(case: dict, store: str) -> str:
-    """'absent' | 'complete:new' | 'complete:old' | 'complete:mixed' | 'empty-keydir' | 'metadata-incomplete' | 'data-incomplete'"""
+    """'absent' | 'complete:new' | 'complete:old' | 'metadata=<absent|partial|complete>,data=<absent|partial|old|new|mixed>'.
+    Decided by byte comparison with reference entries, independently of labtech's loading code."""
     task = make_task(case)
     kd = os.path.join(store, task.cache_key)
     if not os.path.isdir(kd):
         return 'absent'
     refs = reference_entries(case)
     files = {fn: open(os.path.join(kd, fn), 'rb').read() for fn in os.listdir(kd)}
-    if not files:
-        return 'empty-keydir'
-    if 'metadata.json' not in files or not any(_meta_equal(files['metadata.json'], refs[g]['metadata.json']) for g in ('new', 'old')):
-        return 'metadata-incomplete'
-    gens = set()
+    if 'metadata.json' not in files:
+        m = 'absent'
+    elif any(_meta_equal(files['metadata.json'], refs[g]['metadata.json']) for g in ('new', 'old')):
+        m = 'complete'
+    else:
+        m = 'partial'
+    states = set()
     for fn, ref_new in refs['new'].items():
         if fn == 'metadata.json':
             continue
         if fn not in files:
-            return 'data-incomplete'
-        if files[fn] == ref_new:
-            gens.add('new')
+            states.add('absent')
+        elif files[fn] == ref_new:
+            states.add('new')
         elif files[fn] == refs['old'][fn]:
-            gens.add('old')
+            states.add('old')
         else:
-            return 'data-incomplete'
-    if gens == {'new'}:
-        return 'complete:new'
-    if gens == {'old'}:
-        return 'complete:old'
-    return 'complete:mixed'
+            states.add('partial')
+    if states == {'new'}:
+        d = 'new'
+    elif states == {'old'}:
+        d = 'old'
+    elif states == {'absent'}:
+        d = 'absent'
+    elif states <= {'new', 'old'}:
+        d = 'mixed'
+    else:
+        d = 'partial'
+    if m == 'complete' and d in ('new', 'old'):
+        return f'complete:{d}'
+    return f'metadata={m},data={d}'
 
 
 def run_kill_case(case: dict) -> tuple[Outcome, str]:
@@ -315,7 +326,7 @@ def judge_kill(case: dict, out: Outcome, disk_class: str) -> list[core.Finding]:
     elif out.is_cached is False and out.in_cached_tasks:
         findings.append(core.Finding(f'C13:{phase}:not-is_cached-but-listed-by-cached_tasks', f'disk={disk_class}'))
     if unusable:
-        if disk_class in ('empty-keydir', 'metadata-incomplete', 'data-incomplete'):
+        if disk_class.startswith('metadata='):
             # the kill window the code has no protection for (no commit marker, no atomic rename): identified by what is on disk
             findings.append(core.Finding(f'C13:{phase}:killed-mid-save:{disk_class}:entry-reported-cached-but-unusable',
                                          f'{unusable}; disk={out.disk}; kill={out.fired_at}'))
